@@ -887,6 +887,13 @@ class BaseRepo:
         if not isinstance(wants, list):
             raise TypeError("determine_wants() did not return a list")
 
+        # Like upload-pack, only hand out what the refs shown to
+        # determine_wants() lead to: a requested id has to be one of them.
+        advertised = set(refs.values())
+        for want in wants:
+            if want not in advertised:
+                raise KeyError(want)
+
         current_shallow = set(getattr(graph_walker, "shallow", set()))
 
         unshallow: set[ObjectID] = set()
